@@ -19,6 +19,10 @@ ALPHA = list("()\";|\\#a ") + ["\n", "\r"]
 TOKEN = re.compile(r"""#\\.[A-Za-z0-9]*|"(?:[^"\\]|\\.)*"|\|[^|]*\||;[^\n]*|#\(|[()']|[^\s()";|']+""", re.S)
 
 
+def unesc(s):
+    return re.sub(r"\\u\{([0-9a-fA-F]+)\}", lambda m: chr(int(m.group(1), 16)), s)
+
+
 def tokens_of(form):
     return TOKEN.findall(form)
 
@@ -144,7 +148,8 @@ def run(rep, tier, rng):
             lines.append(" ".join(g))
             want_out += "".join(o for (o, _, _) in res)
             if res[-1][2]:
-                want_err.append(res[-1][2])
+                kk = res[-1][2].split(" ")
+                want_err.append((kk[0], " ".join(unesc(kk[1]).split()) if len(kk) > 1 else ""))
             elif res[-1][1]:
                 want_out += res[-1][1] + C.esc_out("\n")
             j += len(g)
@@ -157,7 +162,7 @@ def run(rep, tier, rng):
         outs = []
         for v, lines in enumerate(variants):
             rc, out, err = F.run_repl(binp, work, "\n".join(lines) + "\n")
-            kinds = [F.msg_kind(l) for l in err.split("\n") if l.strip()]
+            kinds = [" ".join(l.split()) for l in err.split("\n") if l.strip()]      # the messages as printed
             outs.append((rc, out, kinds))
         rep.count()
         rep.nontrivial(tuple(forms))
@@ -166,6 +171,8 @@ def run(rep, tier, rng):
         ref = seq.get("q%d" % i, [])
         ref_out = ref[0][2:] if ref else None
         ref_errs = [x.split(" ")[1] for x in ref[1:]]
+        # the messages this very build's library interface gives for the same forms (so rewording a message is no alarm)
+        ref_msgs = [" ".join(unesc(x.split(" ")[2]).split()) if len(x.split(" ")) > 2 else "" for x in ref[1:]]
         bad = False
         for v, (rc, out, kinds) in enumerate(outs):
             if rc != 0 or "panicked" in out:
@@ -176,19 +183,20 @@ def run(rep, tier, rng):
                                "splitting_b": variants[v], "transcript_b": [out, kinds]}); bad = True; break
         if bad:
             continue
-        norm_kinds = ["syntax" if k.startswith("syntax") else k for k in outs[0][2]]
-        if C.esc_out(outs[0][1]) != ref_out or norm_kinds != ref_errs:
+        norm_kinds = ref_errs
+        if C.esc_out(outs[0][1]) != ref_out or outs[0][2] != ref_msgs:
             rep.violation({"what": "the session does not equal evaluating the same forms one after another on one interpreter",
                            "forms": forms, "repl": [outs[0][1], outs[0][2]], "sequential": ref})
             continue
         if i in joined:
             lines, want_out, want_err = joined[i]
             rc, out, err = F.run_repl(binp, work, "\n".join(lines) + "\n")
-            kinds = ["syntax" if k.startswith("syntax") else k for k in (F.msg_kind(l) for l in err.split("\n") if l.strip())]
-            if rc != 0 or C.esc_out(out) != want_out or kinds != want_err:
+            said = [" ".join(l.split()) for l in err.split("\n") if l.strip()]
+            kinds = [k for k, _ in want_err]
+            if rc != 0 or C.esc_out(out) != want_out or said != [m for _, m in want_err]:
                 rep.violation({"what": "a submission of several forms does not print exactly what its forms write plus the value of its "
                                        "last form (nothing for a definition or an unspecified value)", "lines": lines,
-                               "repl": [out, kinds], "expected_stdout": want_out, "expected_errors": want_err})
+                               "repl": [out, said], "expected_stdout": want_out, "expected_errors": want_err})
                 continue
             m = model.get("j%d" % i, [])
             if (m[0][2:] if m else None) != C.esc_out(out) or [x.split(" ")[1] for x in m[1:]] != kinds:
